@@ -12,6 +12,7 @@ import (
 	"go/token"
 	"os"
 	"path/filepath"
+	"sort"
 	"strings"
 )
 
@@ -403,7 +404,7 @@ func runFacts(args []string) {
 	fs := flag.NewFlagSet("facts", flag.ExitOnError)
 	which := fs.String("fact", "", "F1..F7")
 	fs.Parse(args)
-	table := map[string]func(*token.FileSet){"F1": factF1, "F2": factF2, "F3": factF3, "F4": factF4, "F5": factF5, "F6": factF6, "F7": factF7, "F8": factF8, "F9": factF9}
+	table := map[string]func(*token.FileSet){"F1": factF1, "F2": factF2, "F3": factF3, "F4": factF4, "F5": factF5, "F6": factF6, "F7": factF7, "F8": factF8, "F9": factF9, "F10": factF10}
 	fn, ok := table[*which]
 	if !ok {
 		fmt.Println("FACT", *which, "unknown")
@@ -420,4 +421,161 @@ func runFacts(args []string) {
 	}()
 	fn(token.NewFileSet())
 	fmt.Printf("FACT %s ok\n", *which)
+}
+
+// F10: no mutex is taken again while it is held. For every package under plugins/ and server/:
+// a function that takes a lock K (K.Lock() or K.RLock()) must not, while it holds K (up to the
+// matching explicit unlock, or to the end of the function when the unlock is deferred), take K
+// again or call a function of the same package that (transitively) takes K. With sync.RWMutex a
+// second RLock by the same goroutine deadlocks as soon as a writer is waiting in between; with
+// sync.Mutex it deadlocks at once. Lock expressions are compared after replacing the receiver
+// name by "_", so `a.l` in one method and `b.l` in another are the same lock.
+func factF10(fset *token.FileSet) {
+	pkgs := map[string][]*ast.File{}
+	for _, root := range []string{"plugins", "server"} {
+		filepath.Walk(filepath.Join(repoRoot, root), func(p string, info os.FileInfo, err error) error {
+			if err != nil || info.IsDir() || !strings.HasSuffix(p, ".go") || strings.HasSuffix(p, "_test.go") {
+				return nil
+			}
+			af, perr := parser.ParseFile(fset, p, nil, 0)
+			if perr != nil {
+				fail("cannot parse %s", p)
+			}
+			pkgs[filepath.Dir(p)] = append(pkgs[filepath.Dir(p)], af)
+			return nil
+		})
+	}
+	nlocks := 0
+	for dir, files := range pkgs {
+		type fn struct {
+			decl *ast.FuncDecl
+			recv string
+		}
+		funcs := map[string][]fn{} // by bare name
+		for _, f := range files {
+			for _, d := range f.Decls {
+				if fd, ok := d.(*ast.FuncDecl); ok && fd.Body != nil {
+					r := ""
+					if fd.Recv != nil && len(fd.Recv.List) == 1 && len(fd.Recv.List[0].Names) == 1 {
+						r = fd.Recv.List[0].Names[0].Name
+					}
+					funcs[fd.Name.Name] = append(funcs[fd.Name.Name], fn{fd, r})
+				}
+			}
+		}
+		norm := func(x ast.Expr, recv string) string {
+			s := exprStr(fset, x)
+			if recv != "" {
+				if s == recv {
+					return "_"
+				}
+				if strings.HasPrefix(s, recv+".") {
+					return "_" + s[len(recv):]
+				}
+			}
+			return s
+		}
+		// lock acquisitions / releases / package-local calls of a function body, in source order
+		type ev struct {
+			pos      token.Pos
+			kind     string // lock, unlock, deferunlock, call
+			key      string
+			deferred bool
+		}
+		events := func(f fn) []ev {
+			var out []ev
+			deferred := map[*ast.CallExpr]bool{}
+			ast.Inspect(f.decl.Body, func(n ast.Node) bool {
+				if d, ok := n.(*ast.DeferStmt); ok {
+					deferred[d.Call] = true
+				}
+				c, ok := n.(*ast.CallExpr)
+				if !ok {
+					return true
+				}
+				switch fun := c.Fun.(type) {
+				case *ast.SelectorExpr:
+					switch fun.Sel.Name {
+					case "Lock", "RLock":
+						if len(c.Args) == 0 {
+							out = append(out, ev{c.Pos(), "lock", norm(fun.X, f.recv), false})
+							return true
+						}
+					case "Unlock", "RUnlock":
+						if len(c.Args) == 0 {
+							k := "unlock"
+							if deferred[c] {
+								k = "deferunlock"
+							}
+							out = append(out, ev{c.Pos(), k, norm(fun.X, f.recv), false})
+							return true
+						}
+					}
+					if _, ok := funcs[fun.Sel.Name]; ok {
+						out = append(out, ev{c.Pos(), "call", fun.Sel.Name, false})
+					}
+				case *ast.Ident:
+					if _, ok := funcs[fun.Name]; ok {
+						out = append(out, ev{c.Pos(), "call", fun.Name, false})
+					}
+				}
+				return true
+			})
+			sort.Slice(out, func(i, j int) bool { return out[i].pos < out[j].pos })
+			return out
+		}
+		// which lock keys a function may take, transitively
+		takes := map[string]map[string]bool{}
+		var visit func(name string, seen map[string]bool) map[string]bool
+		visit = func(name string, seen map[string]bool) map[string]bool {
+			if t, ok := takes[name]; ok {
+				return t
+			}
+			if seen[name] {
+				return map[string]bool{}
+			}
+			seen[name] = true
+			t := map[string]bool{}
+			for _, f := range funcs[name] {
+				for _, e := range events(f) {
+					switch e.kind {
+					case "lock":
+						t[e.key] = true
+					case "call":
+						for k := range visit(e.key, seen) {
+							t[k] = true
+						}
+					}
+				}
+			}
+			takes[name] = t
+			return t
+		}
+		for name, fl := range funcs {
+			for _, f := range fl {
+				held := map[string]bool{}
+				for _, e := range events(f) {
+					switch e.kind {
+					case "lock":
+						nlocks++
+						if held[e.key] {
+							fail("%s: %s takes %s again while holding it (line %d)", dir, name, e.key, fset.Position(e.pos).Line)
+						}
+						held[e.key] = true
+					case "unlock":
+						delete(held, e.key)
+					case "call":
+						for k := range visit(e.key, map[string]bool{}) {
+							if held[k] {
+								fail("%s: %s calls %s (line %d) while holding %s, which %s takes as well: a goroutine blocks on itself", dir, name, e.key, fset.Position(e.pos).Line, k, e.key)
+							}
+						}
+					}
+				}
+			}
+		}
+	}
+	if nlocks < 8 {
+		fail("only %d lock acquisitions found in plugins/ and server/ (the fact is looking at the wrong code)", nlocks)
+	}
 }
